@@ -63,20 +63,20 @@ impl Timer {
     open spec fn register_ens(o: &Self, n: &Self, ok: bool) -> bool {
         &&& ok && n.dl() == o.dl() && (n.reg_token() is Some <==> o.dl() is Some)
         // C05 (must-call): an armed timer HAS put (its deadline, its token) into the wheel, under the counter it remembers
-        &&& n.reg_token() is Some ==> (n.reg_counter() matches Some(c) && 0 <= c <= u32::MAX && w_wheel_inserted(c as u32, o.dl()->Some_0, n.reg_token()->Some_0))
+        &&& n.reg_token() is Some ==> (n.reg_counter() matches Some(c) && w_wheel_inserted(c, o.dl()->Some_0, n.reg_token()->Some_0))
     }
     open spec fn reregister_req(&self) -> bool { true }
     open spec fn reregister_ens(o: &Self, n: &Self, ok: bool) -> bool {
         &&& ok && n.dl() == o.dl() && (n.reg_token() is Some <==> o.dl() is Some)
-        &&& o.reg_counter() matches Some(c) ==> (0 <= c <= u32::MAX && w_wheel_cancelled(c as u32))
-        &&& n.reg_token() is Some ==> (n.reg_counter() matches Some(c) && 0 <= c <= u32::MAX && w_wheel_inserted(c as u32, o.dl()->Some_0, n.reg_token()->Some_0))
+        &&& o.reg_counter() matches Some(c) ==> w_wheel_cancelled(c)
+        &&& n.reg_token() is Some ==> (n.reg_counter() matches Some(c) && w_wheel_inserted(c, o.dl()->Some_0, n.reg_token()->Some_0))
     }
     open spec fn unregister_req(&self) -> bool { true }
     open spec fn unregister_ens(o: &Self, n: &Self, ok: bool) -> bool {
         &&& ok && n.dl() == o.dl() && n.reg_token() is None
         // C05/C07 (must-call): the arming it had HAS been cancelled in the wheel (a disabled / removed / re-armed timer
         // leaves no entry behind that could still fire)
-        &&& o.reg_counter() matches Some(c) ==> (0 <= c <= u32::MAX && w_wheel_cancelled(c as u32))
+        &&& o.reg_counter() matches Some(c) ==> w_wheel_cancelled(c)
     }
     open spec fn process_req(&self) -> bool { true }
     /// the callback may run only for the timer's own current arming and only with its current deadline
